@@ -1,6 +1,7 @@
 package checks
 
 import (
+	"context"
 	"errors"
 	"fmt"
 	"math/rand/v2"
@@ -372,7 +373,15 @@ func c07Judge(rep *vk.Report, x *c07Exec) {
 // "not exceeded": result unchanged, listener silent, execution not cancelled by it.
 func c07Nested(rep *vk.Report, idx int) {
 	r := vk.Rng(rep.Seed, "C07n", idx)
-	kind := vk.Pick(r, "T(Tshort)", "T(Retry(Tshort))", "T(fn-returns-wrapped-ErrExceeded)", "T(Fallback(Tshort))")
+	kind := vk.Pick(r, "T(Tshort)", "T(Retry(Tshort))", "T(fn-returns-wrapped-ErrExceeded)", "T(Fallback(Tshort))", "T-cancelled-from-outside", "Hedge(Retry(T))")
+	if kind == "T-cancelled-from-outside" {
+		c07Outside(rep, idx, r)
+		return
+	}
+	if kind == "Hedge(Retry(T))" {
+		c07HedgeRetry(rep, idx, r)
+		return
+	}
 	L := time.Duration(vk.Pick(r, 300, 1000, 3000)) * time.Microsecond
 	var outerCalls, innerCalls atomic.Int64
 	outer := timeout.Builder[int](time.Hour).OnTimeoutExceeded(func(failsafe.ExecutionDoneEvent[int]) { outerCalls.Add(1) }).Build()
@@ -409,4 +418,79 @@ func c07Nested(rep *vk.Report, idx int) {
 	}
 	rep.Count("nested_timeout_scenarios", 1)
 	rep.Distinct(fmt.Sprintf("nested|%s|%d", kind, L))
+}
+
+// c07Outside: a Timeout whose execution is cancelled from outside (context) well before the limit, with a function that
+// returns the context's error as I/O code does: the Timeout did not expire, so its listener must stay silent for good
+// (a timer left armed would call it once the limit passes).
+func c07Outside(rep *vk.Report, idx int, r *rand.Rand) {
+	L := time.Duration(vk.Pick(r, 10, 20, 30)) * time.Millisecond
+	var calls atomic.Int64
+	T := timeout.Builder[int](L).OnTimeoutExceeded(func(failsafe.ExecutionDoneEvent[int]) { calls.Add(1) }).Build()
+	ctx, cancel := context.WithCancel(context.Background())
+	defer cancel()
+	time.AfterFunc(L/10, cancel)
+	pols := []failsafe.Policy[int]{T}
+	if r.IntN(2) == 0 {
+		pols = []failsafe.Policy[int]{retrypolicy.Builder[int]().WithMaxRetries(1).Build(), T}
+	}
+	fn := func(e failsafe.Execution[int]) (int, error) {
+		<-e.Canceled()
+		return 0, e.Context().Err()
+	}
+	var err error
+	if r.IntN(2) == 0 {
+		_, err = failsafe.NewExecutor[int](pols...).WithContext(ctx).GetWithExecution(fn)
+	} else {
+		_, err = failsafe.NewExecutor[int](pols...).WithContext(ctx).GetWithExecutionAsync(fn).Get()
+	}
+	time.Sleep(L + 30*time.Millisecond)
+	rep.Eval()
+	if !errors.Is(err, context.Canceled) || calls.Load() != 0 {
+		rep.Violate(idx, "C07/listener-called-without-timeout", fmt.Sprintf("Timeout (limit %v) cancelled from outside after %v: result %v, OnTimeoutExceeded called %d times %v after the execution finished (want 0)", L, L/10, err, calls.Load(), L+30*time.Millisecond), map[string]any{"limit_ns": int64(L)})
+		return
+	}
+	rep.Count("outside_cancellation_scenarios", 1)
+	rep.Distinct(fmt.Sprintf("outside|%d|%d", L, len(pols)))
+}
+
+// c07HedgeRetry: Hedge(Retry(Timeout(fn))): the limit applies afresh to each attempt of the retry policy also inside a
+// hedged attempt - a Timeout firing inside the hedge branch must cancel only what is inside that Timeout. Decided
+// without any timing assumption: a probe policy between the retry policy and the Timeout looks at the execution the
+// retry policy works on right after the Timeout returned ErrExceeded; before any result has been accepted by the hedge
+// policy nothing but that Timeout can have cancelled anything, so that execution must still be live.
+func c07HedgeRetry(rep *vk.Report, idx int, r *rand.Rand) {
+	L := time.Duration(vk.Pick(r, 4, 6, 10)) * time.Millisecond
+	hp := hedgepolicy.BuilderWithDelay[int](L / 3).WithMaxHedges(1).CancelIf(func(_ int, err error) bool { return err == nil }).Build()
+	rp := retrypolicy.Builder[int]().WithMaxRetries(40).Build()
+	T := timeout.With[int](L)
+	var hedgeCalls atomic.Int64
+	var produced atomic.Bool
+	var bad atomic.Pointer[string]
+	probe := &probePolicy{after: func(e failsafe.Execution[int], _ any, res *common.PolicyResult[int]) {
+		if res.Error != nil && errors.Is(res.Error, timeout.ErrExceeded) && !produced.Load() && e.IsCanceled() {
+			msg := fmt.Sprintf("the Timeout inside a %s attempt returned ErrExceeded and the execution of the enclosing retry policy is cancelled too (hedge attempt=%v)", map[bool]string{true: "hedged", false: "first"}[e.IsHedge()], e.IsHedge())
+			bad.CompareAndSwap(nil, &msg)
+		}
+	}}
+	fn := func(e failsafe.Execution[int]) (int, error) {
+		if !e.IsHedge() || hedgeCalls.Add(1) == 1 {
+			<-e.Canceled() // the original attempt always times out; so does the hedge branch's first try
+			return 0, errE2
+		}
+		produced.Store(true)
+		return 4242, nil
+	}
+	res, err := failsafe.NewExecutor[int](hp, rp, probe, T).GetWithExecution(fn)
+	rep.Eval()
+	if s := bad.Load(); s != nil {
+		rep.Violate(idx, "C07/timeout-cancelled-outside-its-scope", fmt.Sprintf("Hedge(Retry(Timeout %v)): %s; call returned (%d,%v) after %d hedge-branch tries", L, *s, res, err, hedgeCalls.Load()), map[string]any{"limit_ns": int64(L)})
+		return
+	}
+	if res == 4242 && err == nil {
+		rep.Count("hedge_retry_timeout_scenarios", 1)
+		rep.Distinct(fmt.Sprintf("hrt|%d", L))
+	} else {
+		rep.Count("hedge_retry_timeout_scenarios_not_judged_late_timer", 1)
+	}
 }
